@@ -2,10 +2,10 @@
 EXTENDS Validation, Json
 NoNext == FALSE /\ UNCHANGED vars
 EmitScn == pc = "recv" => PrintT(<<"SCN", ToJson([scn |-> scn])>>)
-ValsQuick == {"i5", "i0", "im1", "s_abc", "s_5", "true", "null", "a_12"}
+ValsQuick == {"i5", "i0", "im1", "s_abc", "s_5", "true", "null", "a_12", "o_x1", "a_ox1"}
 Validators == {"schema", "pyd_coerce", "pyd_nocoerce"}
 TypesOf(v) == IF v = "schema" THEN SchemaTypes ELSE PydTypes
-S(v, ps, ex, pa, vals, se) == [validator |-> v, vsrc |-> "fresh", params |-> ps, extra |-> ex, passing |-> pa, vals |-> vals, setextra |-> se]
+S(v, ps, ex, pa, vals, se) == [validator |-> v, vsrc |-> "fresh", sreq |-> FALSE, params |-> ps, extra |-> ex, passing |-> pa, vals |-> vals, setextra |-> se]
 P(t, d) == [type |-> t, dflt |-> d]
 InitV(V) ==
     \* two parameters, every type pair, last one with / without default, positional prefixes and named subsets
@@ -24,6 +24,10 @@ InitShared(V) ==
           InitWith(Sh(S(v, <<P(t1, FALSE), P(t2, TRUE)>>, "none", pa, <<a, b>>, FALSE), "shared"))
     \/ \E pa \in {"pos", "named"} : \E a \in V \cup {"omit"} :
           InitWith(Sh(S("schema", <<P("int", FALSE)>>, "none", pa, <<a>>, FALSE), "shared_default"))
-InitQuick == InitV(ValsQuick) \/ InitShared(ValsQuick)
-InitThorough == InitV(Values) \/ InitShared(Values)
+\* the schema lists every parameter as required although the signature gives defaults (schema validator only)
+InitSreq(V) == \E t1 \in SchemaTypes, d1 \in BOOLEAN, d2 \in BOOLEAN, pa \in {"pos", "named"} : \E a \in V \cup {"omit"}, b \in {"i5", "s_abc", "omit"} :
+                  /\ (pa = "pos" => (a = "omit" => b = "omit")) /\ (d1 => d2)
+                  /\ InitWith([S("schema", <<P(t1, d1), P("int", d2)>>, "none", pa, <<a, b>>, FALSE) EXCEPT !.sreq = TRUE])
+InitQuick == InitV(ValsQuick) \/ InitShared(ValsQuick) \/ InitSreq(ValsQuick)
+InitThorough == InitV(Values) \/ InitShared(Values) \/ InitSreq(Values)
 =============================================================================
